@@ -536,3 +536,30 @@ Proof.
       intros H. apply C2 in H. discriminate.
   - eapply covered_bounds; eauto. now apply sorted_maximal_pos.
 Qed.
+
+(* What one frame can carry.  Header.Encode writes the body length unmasked into the 10-bit length field
+   (known finding C16/socket/reply-over-1023): the completion response for a file with 127 gaps and an
+   8-byte name has a 1028-byte body, and the frame the encoder builds for it is rejected by the decoder;
+   with 126 gaps (1020 bytes) it decodes and its body parses to exactly the 126 ranges. *)
+Definition over_chunks (n : nat) : list (N * N) := map (fun i => (N.of_nat (2 * i + 1), 1)) (seq 0 n).
+Definition over_file (size : N) : t1211 :=
+  {| f_namelen := 8; f_name := [65; 66; 67; 68; 46; 106; 112; 103]; f_type := 0; f_size := size |}.
+Definition over_hdr : msg :=
+  {| m_id := 0x1212; m_len := 0; m_enc := 0; m_frag := 0; m_ver := 0; m_bcd := [0; 0; 0; 0; 0; 1];
+     m_serial := 7; m_sum := 0; m_no := 0; m_body := []; m_check := 0 |}.
+
+Lemma reply_over_1023_refuted :
+  let g := miss_segments 254 127 (over_chunks 127) in
+  length g = 127%nat /\ length (reply1212 (over_file 254) g) = 1028%nat /\
+  parse9212 (reply1212 (over_file 254) g) =
+    Ok {| r_namelen := 8; r_name := f_name (over_file 254); r_type := 0; r_result := 1; r_count := 127; r_list := g |} /\
+  decode (encode over_hdr 0x9212 3 (reply1212 (over_file 254) g)) = Err E_BODY_LEN.
+Proof. vm_compute. repeat split; reflexivity. Qed.
+
+Lemma reply_126_gaps_carried :
+  let g := miss_segments 252 126 (over_chunks 126) in
+  length g = 126%nat /\ length (reply1212 (over_file 252) g) = 1020%nat /\
+  exists m, decode (encode over_hdr 0x9212 3 (reply1212 (over_file 252) g)) = Ok m /\ m_id m = 0x9212 /\
+    parse9212 (m_body m) =
+      Ok {| r_namelen := 8; r_name := f_name (over_file 252); r_type := 0; r_result := 1; r_count := 126; r_list := g |}.
+Proof. vm_compute. repeat split; try reflexivity. eexists. repeat split; reflexivity. Qed.
